@@ -528,7 +528,8 @@ func StringDocs() []string {
 func ExtraDocs() []string {
 	out := append(append(NumberDocs(), MemberDocs()...), StringDocs()...)
 	out = append(append(out, NestedKeyDocs()...), ClosureDocs()...)
-	return append(append(append(out, CaseKeyDocs()...), EscapedKeyDocs()...), AffixDocs()...)
+	out = append(append(append(out, CaseKeyDocs()...), EscapedKeyDocs()...), AffixDocs()...)
+	return append(append(out, DimDocs()...), BBoxDocs()...)
 }
 
 // NestedKeyDocs: foreign members whose values hold reserved key names
@@ -698,6 +699,69 @@ func AffixDocs() []string {
 		for _, m := range marks {
 			out = append(out, m+b, b+m, m+" "+b, " "+b+" "+m)
 		}
+	}
+	return out
+}
+
+// DimDocs: positions of 2..5 ordinates in every combination along a line of
+// three positions and a ring of four, with ordinate values that are zero,
+// ordinary, and overflowing (1e999 in the third / fourth place), as
+// LineString, MultiLineString member, Polygon (also the canonical rectangle
+// ring, which AllowRects may turn into a Rect) and inside a Feature.
+func DimDocs() []string {
+	pos := func(x, y string, dims int, fill string) string {
+		s := "[" + x + "," + y
+		for d := 2; d < dims; d++ {
+			s += "," + fill
+		}
+		return s + "]"
+	}
+	var out []string
+	fills := []string{"0", "7", "-0.5", "1e999", "-1e999"}
+	for _, fill := range fills {
+		for a := 2; a <= 5; a++ {
+			for b := 2; b <= 5; b++ {
+				for c := 2; c <= 5; c++ {
+					ls := `"coordinates":[` + pos("0", "0", a, fill) + `,` + pos("10", "0", b, fill) + `,` + pos("10", "10", c, fill) + `]`
+					out = append(out, Obj("LineString", ls))
+					if a == c || fill == "0" {
+						out = append(out, Obj("MultiLineString", `"coordinates":[[[5,5],[6,6]],[`+pos("0", "0", a, fill)+`,`+pos("10", "0", b, fill)+`,`+pos("10", "10", c, fill)+`]]`))
+						out = append(out, Obj("Feature", `"geometry":`+Obj("LineString", ls), `"properties":{}`))
+					}
+					// rectangle ring 10,20 -> 30,40 (the shape AllowRects recognises), fourth and fifth position with dims a
+					ring := `[` + pos("10", "20", a, fill) + `,` + pos("30", "20", b, fill) + `,` + pos("30", "40", c, fill) + `,` + pos("10", "40", a, fill) + `,` + pos("10", "20", a, fill) + `]`
+					out = append(out, Obj("Polygon", `"coordinates":[`+ring+`]`))
+					if b == c {
+						out = append(out, Obj("GeometryCollection", `"geometries":[`+Obj("Polygon", `"coordinates":[`+ring+`]`)+`]`))
+						out = append(out, Obj("MultiPolygon", `"coordinates":[[`+ring+`]]`))
+					}
+				}
+			}
+		}
+	}
+	return out
+}
+
+// BBoxDocs: "bbox" members of every shape — correct 2D, the six-number 3D
+// form, too small, west/east swapped (antimeridian style), far away, empty,
+// not an array — on geometries with and without z, on Features and on
+// collections and their children.
+func BBoxDocs() []string {
+	boxes := []string{`[0,0,10,10]`, `[0,0,2,10,10,8]`, `[0,0,5,10,10,7]`, `[0,0,0,0]`, `[10,0,0,10]`, `[177,-20,-178,-16]`, `[100,100,101,101]`, `[]`, `[1]`, `"none"`, `null`, `[0,0,"x",10]`, `[0,0,1e999,10]`}
+	var out []string
+	for _, b := range boxes {
+		m := `"bbox":` + b
+		poly2 := `"coordinates":[[[0,0],[10,0],[10,10],[0,10],[0,0]]]`
+		poly3 := `"coordinates":[[[0,0,2],[10,0,4],[10,10,8],[0,10,4],[0,0,2]]]`
+		line3 := `"coordinates":[[0,0,2],[10,10,8]]`
+		out = append(out,
+			Obj("Polygon", m, poly2), Obj("Polygon", poly3, m), Obj("LineString", m, line3), Obj("Point", `"coordinates":[7,7,3]`, m),
+			Obj("MultiPoint", `"coordinates":[[7,7],[1,1]]`, m),
+			Obj("Feature", m, `"geometry":`+Obj("Polygon", poly3), `"properties":{}`),
+			Obj("Feature", `"geometry":`+Obj("Polygon", poly2, m), `"properties":null`, m),
+			Obj("FeatureCollection", `"features":[`+Obj("Feature", m, `"geometry":`+Obj("Polygon", poly3), `"properties":{}`)+`,`+Obj("Feature", `"geometry":`+Obj("LineString", `"coordinates":[[20,0,1],[21,1,2]]`), m)+`]`, m),
+			Obj("GeometryCollection", `"geometries":[`+Obj("Polygon", poly2, m)+`,`+Obj("Point", `"coordinates":[30,30]`, m)+`]`, m),
+		)
 	}
 	return out
 }
